@@ -9,9 +9,10 @@
              nodes   : list (id, pt)                                      o.Nodes, in order
              ways    : list (id, list node-id)                            o.Ways, in order
              members : list (is_way ref role)                             role 0 outer 1 inner 2 other
-             runs    : list (src incl orients nfeat kind polys tainted)   osmgeojson.Convert
+             runs    : list (src incl orients mask nfeat kind polys tainted)   osmgeojson.Convert
                  src 0: coordinates from node objects; 1: from annotated way nodes, no node objects;
-                 2: both.  orients: Member.Orientation given.  kind 0 no relation feature,
+                 2: both; 3: node objects present and way node k (all ways, in order) annotated
+                 iff mask[k] (mixed sources inside one way).  orients: Member.Orientation given.  kind 0 no relation feature,
                  1 Polygon, 2 MultiPolygon.
              annots  : list (orients_in ok orients_out)                   annotate.Relations
    2 JOIN  : segments : list (index orient rev line)
@@ -54,11 +55,12 @@ Definition prawway : P (Z * list Z) := ppair pint (plist pint).
 Definition prawmem : P (bool * Z * role) := w <- pbool ;; r <- pint ;; ro <- prole ;; ret (w, r, ro).
 
 Record run := mkRun {
-  run_src : Z; run_incl : bool; run_orients : list Z;
+  run_src : Z; run_incl : bool; run_orients : list Z; run_mask : list bool;
   run_nfeat : Z; run_kind : Z; run_polys : multipolygon; run_tainted : bool }.
 Definition prun : P run :=
-  s <- pint ;; i <- pbool ;; o <- plist pint ;; n <- pint ;; k <- pint ;; p <- pmp ;; t <- pbool ;;
-  ret (mkRun s i o n k p t).
+  s <- pint ;; i <- pbool ;; o <- plist pint ;; m <- plist pbool ;;
+  n <- pint ;; k <- pint ;; p <- pmp ;; t <- pbool ;;
+  ret (mkRun s i o m n k p t).
 
 Definition pannot : P (list Z * bool * list Z) :=
   i <- plist pint ;; ok <- pbool ;; o <- plist pint ;; ret (i, ok, o).
@@ -73,6 +75,22 @@ Definition mk_ways (annotated : bool) (nodes : list node) (raw : list (Z * list 
   map (fun w => mkWay (fst w)
                   (map (fun id => if annotated then annot_wn nodes id else mkWN id 0 0 0) (snd w)))
       raw.
+(* mixed sources: way node k (counted over all ways in order) is annotated iff mask[k] *)
+Fixpoint mk_waynodes_mask (nodes : list node) (ids : list Z) (mask : list bool)
+  : list waynode * list bool :=
+  match ids with
+  | [] => ([], mask)
+  | id :: r =>
+      let wn := if hd false mask then annot_wn nodes id else mkWN id 0 0 0 in
+      let '(wns, m') := mk_waynodes_mask nodes r (tl mask) in (wn :: wns, m')
+  end.
+Fixpoint mk_ways_mask (nodes : list node) (raw : list (Z * list Z)) (mask : list bool) : list way :=
+  match raw with
+  | [] => []
+  | w :: r => let '(wns, m') := mk_waynodes_mask nodes (snd w) mask in
+              mkWay (fst w) wns :: mk_ways_mask nodes r m'
+  end.
+
 Fixpoint mk_members (raw : list (bool * Z * role)) (orients : list Z) : list member :=
   match raw with
   | [] => []
@@ -93,7 +111,8 @@ Definition zlist_eqb := list_eqb Z.eqb.
 (* judgement 1 for one Convert run *)
 Definition run_model_ok nodes rawways rawmems (r : run) : bool :=
   let ns := if run_src r =? 1 then [] else nodes in
-  let ws := mk_ways (negb (run_src r =? 0)) nodes rawways in
+  let ws := if run_src r =? 3 then mk_ways_mask nodes rawways (run_mask r)
+            else mk_ways (negb (run_src r =? 0)) nodes rawways in
   let ms := mk_members rawmems (run_orients r) in
   Nat.eqb (length (run_orients r)) (length rawmems) &&
   let '(g, t) := build_polygon (run_incl r) ns ws ms in
@@ -162,8 +181,9 @@ Definition check_scene : P (list Z) :=
                 && forallb (fun a => let '(_, ok, oout) := a in ok && zlist_eqb oout exp) annots in
       let j3 := scene_ok sc && valid_cuts sc ps
                 && forallb2 (member_is_piece sc nodes rawways) rawmems ps
-                && forallb (fun r => truthful_or_none (run_orients r) exp) runs
-                && forallb (fun a => let '(oin, _, _) := a in truthful_or_none oin exp) annots in
+                && forallb (fun r => truthful_or_none (run_orients r) exp) runs in
+      (* annotate.Relations must write truthful orientations whatever the members carried
+         before (stale or wrong values included): no condition on the annotate inputs *)
       ret (code_if j1 1 ++ code_if j2 2 ++ code_if j3 3)%list
   end.
 
@@ -218,7 +238,7 @@ Definition check_multi : P (list Z) :=
   let as_run (r : Z * bool * Z * list (list Z * Z * multipolygon * bool))
              (ob : list Z * Z * multipolygon * bool) : run :=
     let '(s, i, n, _) := r in let '(o, k, p, t) := ob in
-    mkRun s i o (if n =? Z.of_nat (length rels) then 1 else 0) k p t in
+    mkRun s i o [] (if n =? Z.of_nat (length rels) then 1 else 0) k p t in
   let j1 := forallb (fun r => let '(_, _, _, obs) := r in
               forallb2 (fun rel ob => let '(_, _, ms) := rel in run_model_ok nodes rawways ms (as_run r ob))
                        rels obs) runs in
